@@ -77,7 +77,7 @@ def Instr.Valid : Instr → Prop
   | .brr _ o => -128 ≤ o ∧ o < 256
   | .call a b | .ret a b => a < 16 ∧ b < 16
 
-instance (i : Instr) : Decidable i.Valid := by
+instance Instr.decValid (i : Instr) : Decidable i.Valid := by
   cases i <;> simp only [Instr.Valid] <;> exact inferInstance
 
 def Cond.holds (f : Flags) : Cond → Bool
